@@ -250,6 +250,33 @@ def run(ctx):
             secs += [hdr, "{"] + body + ["}"]
         items.append((f"G-{k}", "\n".join(secs) + "\n", None, "skeleton"))
     ctx.extra["fragment_files"] = len(seen)
+    # numeric corners: well-shaped charts whose every number is drawn from the corners of the practical range (0, 1, 2, 3, the
+    # usual values, 8-digit extremes), with ticks one apart as well as far apart - sub-microsecond ticks, equal timestamps at
+    # different ticks, huge sustains, zero and huge resolutions, tempos from 0.001 to 99999.999 BPM
+    NUMS = [0, 1, 2, 3, 4, 7, 96, 100, 192, 480, 1000, 48000, 120000, 150500, 19200000, 10**7, 99999999]
+    for k in range(ctx.pick(2500, 60000)):
+        res = r.choice(NUMS[1:] + [192, 192, 480])
+        t, sync = 0, ["  0 = TS 4"]
+        for j in range(r.randrange(1, 6)):
+            sync.append(f"  {t} = B {r.choice(NUMS[1:] if r.random() < 0.9 else NUMS)}")
+            if r.random() < 0.3:
+                sync.append(f"  {t} = TS {r.choice([1, 3, 4, 99])}" + (f" {r.choice([0, 1, 2, 6])}" if r.random() < 0.5 else ""))
+            if r.random() < 0.2:
+                sync.append(f"  {t} = A {r.choice(NUMS)}")
+            t += r.choice([1, 1, 2, 3, 96, 100, 10**5, r.choice(NUMS[1:])])
+        ev, t = [], 0
+        for j in range(r.randrange(0, 4)):
+            ev.append(f'  {t} = E "{r.choice(["section a", "lyric b", "c"])}"')
+            t += r.choice([0, 1, 2, 96, r.choice(NUMS)])
+        tr, t = [], r.choice([0, 0, 1])
+        for j in range(r.randrange(0, 7)):
+            tr.append(f"  {t} = N {r.choice([0, 1, 2, 3, 4, 6, 7] + ([5] if j else []))} {r.choice(NUMS)}")
+            if r.random() < 0.3:
+                tr.append(f"  {t} = S 2 {r.choice(NUMS)}")
+            t += r.choice([0, 1, 1, 2, 64, 65, r.choice(NUMS)])
+        lines = ["[Song]", "{", f"  Resolution = {res}", f"  Offset = {r.choice(NUMS)}", "}", "[SyncTrack]", "{"] + sync + ["}", "[Events]", "{"] + ev + ["}",
+                 f"[{r.choice(['ExpertSingle', 'HardDrums', 'EasyGHLBass'])}]", "{"] + tr + ["}"]
+        items.append((f"N-{k}", "\n".join(lines) + "\n", None, "numeric corners"))
     meta = {it[0]: it for it in items}
     recs = par.pmap(judge_text, [(it[0], it[1]) for it in items], chunk=300)
     ctx.evaluations += len(recs)
